@@ -56,10 +56,14 @@ def _case_worker(args):
     try:
         mod = importlib.import_module('bfgsim.' + modname)
         t0 = time.monotonic()
+        from . import world as _world
+        _world.TICKS[0] = 0
         case = mod.run_case(seed, root, params)
         case['wall'] = time.monotonic() - t0
         case['seed'] = seed
-        return ('ok', mod.summarise(case))
+        out = mod.summarise(case)
+        out['ticks'] = _world.TICKS[0]
+        return ('ok', out)
     except Exception:
         return ('harness', {'seed': seed, 'error': traceback.format_exc()})
     finally:
@@ -342,6 +346,12 @@ class Check:
             },
             'assumptions': describe.get('assumptions', []),
         }
+        sets = {}
+        for c in cases:
+            for k, vals in (c.get('sets') or {}).items():
+                sets.setdefault(k, set()).update(vals)
+        for k, vals in sets.items():
+            ev['coverage']['distinct_' + k] = len(vals)
         extra = getattr(self.mod, 'evidence_extra', None)
         if extra:
             ev['coverage'].update(extra(cases))
